@@ -37,4 +37,10 @@ CANARIES = [
          edits=[(RH, 'Ok(datagram) => trace!("incoming datagram of length: {}", datagram.len()),', 'Ok(datagram) => { let e = Error::msg(); break e; }')]),
     dict(id='l-handler-for-other-limit', unit=U, what='handlers are built with the default configuration', expect=['InboundRequestHandler::start::accept_loop::handler_uses_configured_limit'],
          edits=[(RH, 'BiStreamRequestHandler::new(&self.config, self.connection.clone()', 'BiStreamRequestHandler::new(&Config::default(), self.connection.clone()')]),
+    dict(id='p-call-no-peer-tag', unit=U, what='outgoing requests are not tagged with the connection identity', expect=['Peer::call::tags_request_with_connection_identity'],
+         edits=[(PEER, '        request.extensions_mut().insert(self.peer_id());\n        request.extensions_mut().insert(crate::Direction::Outbound);', '        request.extensions_mut().insert(crate::Direction::Outbound);')]),
+    dict(id='p-call-other-layer', unit=U, what='an RPC bypasses the network outbound layer stack', expect=['Peer::call::through_the_network_outbound_layer'],
+         edits=[(PEER, 'let mut service = self.outbound_request_layer.layer(inner);', 'let mut service = LayeredService { layer: OutboundRequestLayer { id: 0 }, inner };')]),
+    dict(id='p-call-drops-headers', unit=U, what='outgoing request loses its headers on the way to the layer stack', expect=['Peer::call::request_unchanged'],
+         edits=[(PEER, 'let peer = self.clone();', 'request.head.headers = HeaderMap::new(); let peer = self.clone();')]),
 ]
